@@ -1952,6 +1952,16 @@ rrul_fill_Hly(echs_instant_t *restrict tgt, size_t nti, rrulsp_t rr)
 		H_mask = ~H_mask;
 	}
 
+	/* the hours that H + k * inter visits repeat after at most 24 steps,
+	 * make sure the hour mask allows one of them */
+	for (unsigned int k = 0U, tmp = H; !(H_mask & (1U << tmp));
+	     tmp = (tmp + rr->inter % 24U) % 24U) {
+		if (UNLIKELY(++k >= 24U)) {
+			/* incongruent, nothing will ever match */
+			goto fin;
+		}
+	}
+
 	/* fill up the array the naive way */
 	for (unsigned int w = ymd_get_wday(y, m, d), yd = ymd_get_yd(y, m, d),
 		     maxd = __get_ndom(y, m), maxy = (y % 4U) ? 365 : 366,
@@ -2173,6 +2183,17 @@ rrul_fill_Mly(echs_instant_t *restrict tgt, size_t nti, rrulsp_t rr)
 	} else if (UNLIKELY(!rr->inter)) {
 		/* we'd never get anywhere */
 		goto fin;
+	}
+
+	/* the times of day that H:M + k * inter visits repeat after at most
+	 * 1440 steps, make sure the hour and minute masks allow one of them */
+	for (unsigned int k = 0U, tmp = H * 60U + M;
+	     !(H_mask & (1U << tmp / 60U)) || !(M_mask & (1ULL << tmp % 60U));
+	     tmp = (tmp + rr->inter % 1440U) % 1440U) {
+		if (UNLIKELY(++k >= 1440U)) {
+			/* incongruent, nothing will ever match */
+			goto fin;
+		}
 	}
 
 	/* fill up the array the naive way */
@@ -2414,6 +2435,19 @@ rrul_fill_Sly(echs_instant_t *restrict tgt, size_t nti, rrulsp_t rr)
 	} else if (UNLIKELY(!rr->inter)) {
 		/* we'd never get anywhere */
 		goto fin;
+	}
+
+	/* the times of day that H:M:S + k * inter visits repeat after at most
+	 * 86400 steps, make sure the time masks allow one of them */
+	for (unsigned int k = 0U, tmp = (H * 60U + M) * 60U + S;
+	     !(H_mask & (1U << tmp / 3600U)) ||
+		     !(M_mask & (1ULL << tmp / 60U % 60U)) ||
+		     !(S_mask & (1ULL << tmp % 60U));
+	     tmp = (tmp + rr->inter % 86400U) % 86400U) {
+		if (UNLIKELY(++k >= 86400U)) {
+			/* incongruent, nothing will ever match */
+			goto fin;
+		}
 	}
 
 	/* fill up the array the naive way */
